@@ -187,6 +187,7 @@ class MapperValued:
         mapping_matrix = self.mapper.mapping_matrix
 
         if self.mesh_pixel_mask is not None:
+            mapping_matrix = mapping_matrix.copy()
             mapping_matrix[:, self.mesh_pixel_mask] = 0.0
 
         return Array2D(
